@@ -55,8 +55,8 @@ CHECKS = {
     ),
     "C01": (
         "exploration",
-        "Hypothesis-generated programs (PipeLang) x edit/restart/revert histories x store kinds; oracle: dds-free reference "
-        "interpreter (itself cross-checked against real Python with a stub dds)",
+        "Hypothesis-generated programs (PipeLang) x edit/restart/revert/live-assignment histories x store kinds x code location "
+        "(accepted package, IPython cells, __main__ script); oracle: dds-free reference interpreter (itself cross-checked against real Python with a stub dds)",
         "Every evaluation of every generated history is run by real dds in forked worker processes and its value compared with "
         "the reference interpreter for the current program state; generated search is the natural level for a property over programs x histories.",
         "Trusted: the reference interpreter (validated against real Python on a sample of every run); the PipeLang subset is the documented supported subset.",
@@ -74,7 +74,8 @@ CHECKS = {
     "C03": (
         "exploration",
         "metamorphic testing over generated programs x environment variants (fresh interpreters with other hash seeds, cwd, "
-        "location, store kind, options, prior in-process history) + pinned signature corpus",
+        "location, store kind, options, prior in-process history, kept lambdas after edits, lazily imported modules) + pinned "
+        "corpus of program signatures and value hashes",
         "The signature map of each generated program is captured in a baseline and in 3-5 variants and must be identical; the "
         "committed corpus (pinned on the unmodified tree) must be reproduced byte-for-byte.",
         "Trusted: the CaptureStore wrapper; corpus re-pins are documented in corpus/C03/REPINS.md.",
